@@ -40,7 +40,10 @@ impl Https {
 pub uninterp spec fn run_of<T>(l: &RwLock<T>) -> int;
 pub uninterp spec fn in_updated(run: int, uri: Https) -> bool;
 // Ghost clock (rewrite R20): every read()/write()/lock() and the fetch call is one step.
-pub tracked struct Clock { pub ghost now: nat }
+// `held`: the acquisition steps of the mutex guards this call holds: `lock` adds its step, an explicit
+// `drop(guard)` removes it (a guard that simply goes out of scope at the end of the function is the
+// business of the *_hold unit).
+pub tracked struct Clock { pub ghost now: nat, pub ghost held: Set<nat> }
 // the guard acquired at step t read `updated` and found the URI absent
 pub uninterp spec fn seen_absent_at(run: int, uri: Https, t: nat) -> bool;
 pub uninterp spec fn mutex_of(run: int, uri: Https, mx: &Mutex<()>) -> bool;
@@ -59,7 +62,7 @@ impl Repository {
     // opens the archive for reading (its own mutex is internal); not a step of the protocol
     #[verifier::external_body]
     fn read(&self, Tracked(clk): Tracked<&mut Clock>) -> (r: Result<Arc<ReadRepository>, RunFailed>)
-        ensures final(clk).now == old(clk).now,
+        ensures final(clk).now == old(clk).now, final(clk).held == old(clk).held,
     { unimplemented!() }
 }
 impl RrdpRepositoryMetrics {
@@ -85,8 +88,10 @@ impl<'a> RepositoryUpdate<'a> {
             // having read `updated` and found the URI absent
             exists|mx: &Mutex<()>, tl: nat, tc: nat| #[trigger] mutex_of(self.collector_spec().run_spec(), self.uri_spec(), mx)
                 && #[trigger] lock_acquired_at(mx, tl) && #[trigger] seen_absent_at(self.collector_spec().run_spec(), self.uri_spec(), tc)
-                && tl < tc && tc < old(clk).now,
-        ensures fetched(self.collector_spec().run_spec(), self.uri_spec()), final(clk).now == old(clk).now + 1,
+                && tl < tc && tc < old(clk).now
+                // ... and that mutex has not been released since
+                && old(clk).held.contains(tl),
+        ensures fetched(self.collector_spec().run_spec(), self.uri_spec()), final(clk).now == old(clk).now + 1, final(clk).held == old(clk).held,
     { unimplemented!() }
 }
 impl Collector {
@@ -98,11 +103,11 @@ impl Collector {
 impl<T> RwLock<T> {
     #[verifier::external_body]
     pub fn read(&self, Tracked(clk): Tracked<&mut Clock>) -> (g: RwLockReadGuard<'_, T>)
-        ensures g.run() == run_of(self), g.time() == old(clk).now, final(clk).now == old(clk).now + 1,
+        ensures g.run() == run_of(self), g.time() == old(clk).now, final(clk).now == old(clk).now + 1, final(clk).held == old(clk).held,
     { unimplemented!() }
     #[verifier::external_body]
     pub fn write(&self, Tracked(clk): Tracked<&mut Clock>) -> (g: RwLockWriteGuard<'_, T>)
-        ensures g.run() == run_of(self), g.time() == old(clk).now, final(clk).now == old(clk).now + 1,
+        ensures g.run() == run_of(self), g.time() == old(clk).now, final(clk).now == old(clk).now + 1, final(clk).held == old(clk).held,
     { unimplemented!() }
 }
 impl<'a, T> RwLockReadGuard<'a, T> { pub uninterp spec fn run(&self) -> int; pub uninterp spec fn time(&self) -> nat; }
@@ -110,11 +115,13 @@ impl<'a, T> RwLockWriteGuard<'a, T> { pub uninterp spec fn run(&self) -> int; pu
 impl<T> Mutex<T> {
     #[verifier::external_body]
     pub fn lock(&self, Tracked(clk): Tracked<&mut Clock>) -> (g: MutexGuard<'_, T>)
-        ensures g.mutex_spec() == self, lock_acquired_at(self, old(clk).now), final(clk).now == old(clk).now + 1,
+        ensures g.mutex_spec() == self, g.acquired_at() == old(clk).now, lock_acquired_at(self, old(clk).now),
+                final(clk).now == old(clk).now + 1, final(clk).held == old(clk).held.insert(old(clk).now),
     { unimplemented!() }
 }
 impl<'a, T> MutexGuard<'a, T> {
     pub uninterp spec fn mutex_spec(&self) -> &Mutex<T>;
+    pub uninterp spec fn acquired_at(&self) -> nat;
 }
 
 // `updated`: rpkiNotify URI -> result of the update
@@ -126,12 +133,14 @@ impl<'a> RwLockReadGuard<'a, HashMap<Https, LoadResult<Repository>>> {
 }
 impl<'a> RwLockWriteGuard<'a, HashMap<Https, LoadResult<Repository>>> {
     #[verifier::external_body]
-    fn insert(&mut self, uri: Https, repo: LoadResult<Repository>) -> (r: Option<LoadResult<Repository>>)
+    fn insert(&mut self, uri: Https, repo: LoadResult<Repository>, Tracked(clk): Tracked<&mut Clock>) -> (r: Option<LoadResult<Repository>>)
         requires
-            // C37 (G3): a repository is recorded as updated only by the thread holding its mutex
+            // C37 (G3): a repository is recorded as updated only by a thread that acquired its mutex
+            // before and has NOT released it since
             exists|mx: &Mutex<()>, tl: nat| #[trigger] mutex_of(old(self).run(), uri, mx)
-                && #[trigger] lock_acquired_at(mx, tl) && tl < old(self).time(),
+                && #[trigger] lock_acquired_at(mx, tl) && tl < old(self).time() && old(clk).held.contains(tl),
         ensures in_updated(old(self).run(), uri), final(self).run() == old(self).run(), final(self).time() == old(self).time(),
+                final(clk).now == old(clk).now, final(clk).held == old(clk).held,
     { unimplemented!() }
 }
 // `running`: rpkiNotify URI -> mutex
@@ -192,9 +201,10 @@ impl<'a> RwLockWriteGuard<'a, HashMap<Https, Arc<Mutex<()>>>> {
     #[verifier::external_body] fn contains_key(&self, uri: &Https) -> bool { unimplemented!() }
     // inserting a fresh mutex REPLACES the entry: only allowed once the repository is in `updated` (G2)
     #[verifier::external_body]
-    fn insert(&mut self, uri: Https, mx: Arc<Mutex<()>>) -> (r: Option<Arc<Mutex<()>>>)
+    fn insert(&mut self, uri: Https, mx: Arc<Mutex<()>>, Tracked(clk): Tracked<&mut Clock>) -> (r: Option<Arc<Mutex<()>>>)
         requires in_updated(old(self).run(), uri),
         ensures final(self).run() == old(self).run(), final(self).time() == old(self).time(),
+                final(clk).now == old(clk).now, final(clk).held == old(clk).held,
     { unimplemented!() }
 }
 impl LogBookWriter {
@@ -251,3 +261,10 @@ impl Default for Mutex<()> {
     // a brand-new mutex: not the mutex of any module/repository of this run
     #[verifier::external_body] fn default() -> Self { unimplemented!() }
 }
+
+// std::mem::drop applied to a mutex guard: releases the mutex -- a clocked event (rule R20, "drop" in
+// clock_calls). Shadows the prelude's `drop` inside the generated module.
+#[verifier::external_body]
+pub fn drop<'a, T>(g: MutexGuard<'a, T>, Tracked(clk): Tracked<&mut Clock>)
+    ensures final(clk).now == old(clk).now + 1, final(clk).held == old(clk).held.remove(g.acquired_at()),
+{ unimplemented!() }
